@@ -49,6 +49,7 @@ def dispatch (op : String) (args : List String) (obs : String) : String × Strin
   | "up" => c09up args obs
   | "hup" => c09hup args obs
   | "hupw" => c09hupw args obs
+  | "upnr" => c09upnr args obs
   | "dl" => c10dl args obs
   | "dial" => c10dial args obs
   | "dialtls" => c10dialtls args obs
